@@ -399,7 +399,7 @@ func c12Identity(c *Ctx) {
 					continue
 				}
 				// Kauri: proposals are relayed down the tree, the proposer id travels in the message
-				if x.name == "Propose" && strings.Contains(k, ".ProposerID(") && trueOf(lf.Facts, func(s string) bool { return strings.HasPrefix(s, "(*hs/core.RuntimeConfig).HasKauriTree(") }) {
+				if x.name == "Propose" && isCarriedProposerKey(k) && trueOf(lf.Facts, func(s string) bool { return strings.HasPrefix(s, "(*hs/core.RuntimeConfig).HasKauriTree(") }) {
 					continue
 				}
 				bad = append(bad, k)
